@@ -24,21 +24,21 @@
    index; both are PLACEHOLDER tokens here ("N", "T": brace-free, checked for the real tags by C35 and
    by the harness), substituted by the harness with the real values before comparing key strings.
 
-   The operations (which keys one script call receives) are read from the call sites:
-     broker.publish.history      broker_redis.go publish: KEYS = stream|list key, meta key, result key; ARGV[4] = channel
-     broker.publish.idempotent   publishIdempotentScript: KEYS = result key; ARGV[2] = channel
-     broker.history              historyStream / historyList: KEYS = stream|list key, meta key
-     broker.subscribe.sharded    one SSUBSCRIBE connection per partition: shard channel and message channels
-     presence.add/remove/stats   4 keys;  presence.get  2 keys
-     map.publish / map.remove    addScript: 8 KEYS (stream, meta, result, state hash/order/expire/meta, cleanup
-                                 registration; unused ones replaced by the ":nil:" key) + the channel
-     map.read.ordered/unordered/stream, map.cleanup (batchRemoveScript: 7 KEYS incl. the cleanup SCAN key + channel)
+   The OPERATIONS are modelled as invocations (section "operations" below): every script-invoking or
+   multi-key operation of the three engines, per variant (broker Publish: history x delta x idempotency
+   key x version; map Publish: ephemeral/recoverable/persistent x keyed x ordered x idempotency key; map
+   Remove: mode x idempotency key; ReadState paged ordered/unordered and by key; ReadStream, Stats, Clear,
+   cleanup find / batch-remove per mode; presence Add/Remove/Get/Stats), as the list of commands it
+   sends with the KEYS BY POSITION (an unused position is the ":nil:" placeholder in cluster mode - an
+   empty key would be a key of slot 0) and the PUB/SUB channel the command publishes to.
 
    Property: for every operation all its keys have the same Tag (SameSlot), and
    extractChannel(messageChannelID(ch)) = ch (RoundTrip).  TLC evaluates it for every bounded
    (mode, prefix, channel) and the spec CLASSIFIES the inputs for which the design is unsound
    (Class); invariant Classified says that no operation fails outside those classes, Tight that
-   every classified input really fails.  The rows are replayed into the real builders.           *)
+   every classified input really fails.  The rows are replayed into the real builders, and every
+   invocation is EXECUTED: the real operation runs against a recording rueidis client, the recorded
+   KEYS / channel must be the spec's, position by position, and lie in one slot.                  *)
 EXTENDS Integers, Sequences, FiniteSets
 
 CONSTANTS ChanChars, MaxChan,     \* channel names: every sequence over ChanChars of length 1..MaxChan (the
@@ -91,10 +91,10 @@ BStream(m, p, ch)      == BHist(m, p, ch, ".stream.")
 BList(m, p, ch)        == BHist(m, p, ch, ".list.")
 BMeta(m, p, ch, lists) == BHist(m, p, ch, IF lists THEN ".list.meta." ELSE ".stream.meta.")
 
-BResult(m, p, ch) ==
-  IF ~IsCluster(m) THEN Pfx(p) \o <<".result.">> \o ch \o <<".">> \o Idem
-  ELSE IF Sharded(m) THEN Pfx(p) \o <<".result.", LB>> \o T(m) \o <<RB, ".">> \o ch \o <<".">> \o Idem
-  ELSE Pfx(p) \o <<".result.", LB>> \o ch \o <<RB, ".">> \o Idem
+BResult(m, p, ch, idem) ==
+  IF ~IsCluster(m) THEN Pfx(p) \o <<".result.">> \o ch \o <<".">> \o idem
+  ELSE IF Sharded(m) THEN Pfx(p) \o <<".result.", LB>> \o T(m) \o <<RB, ".">> \o ch \o <<".">> \o idem
+  ELSE Pfx(p) \o <<".result.", LB>> \o ch \o <<RB, ".">> \o idem
 
 \* pubSubShardChannelID(idx, 0, TRUE): shardChannel "." psShard ".{" tag "}"
 BShardChan(m, p) == Pfx(p) \o <<".shard", ".", "0", ".", LB>> \o T(m) \o <<RB>>
@@ -161,7 +161,8 @@ Builders(m, p, ch, lists) ==
     <<"broker.historyStreamKey", BStream(m, p, ch)>>,
     <<"broker.historyListKey", BList(m, p, ch)>>,
     <<"broker.historyMetaKey", BMeta(m, p, ch, lists)>>,
-    <<"broker.resultCacheKey", BResult(m, p, ch)>>,
+    <<"broker.resultCacheKey", BResult(m, p, ch, Idem)>>,
+    <<"broker.resultCacheKeyNoIdem", BResult(m, p, ch, <<>>)>>,
     <<"presence.setKey", PSet(m, p, ch)>>,
     <<"presence.hashKey", PHash(m, p, ch)>>,
     <<"presence.userSetKey", PUserSet(m, p, ch)>>,
@@ -184,37 +185,124 @@ Builders(m, p, ch, lists) ==
        >>
       ELSE <<>>)
 
-\* operations: name -> builder names whose outputs one script call receives (KEYS and the channel)
-Ops(m, lists) ==
-  <<
-    <<"broker.publish.history",
-      {IF lists THEN "broker.historyListKey" ELSE "broker.historyStreamKey", "broker.historyMetaKey",
-       "broker.resultCacheKey", "broker.messageChannelID"}>>,
-    <<"broker.publish.idempotent", {"broker.resultCacheKey", "broker.messageChannelID"}>>,
-    <<"broker.history", {IF lists THEN "broker.historyListKey" ELSE "broker.historyStreamKey", "broker.historyMetaKey"}>>,
-    <<"presence.add", {"presence.setKey", "presence.hashKey", "presence.userSetKey", "presence.userHashKey"}>>,
-    <<"presence.get", {"presence.setKey", "presence.hashKey"}>>
-  >>
-  \o (IF Sharded(m) THEN << <<"broker.subscribe.sharded", {"broker.pubSubShardChannelID", "broker.messageChannelID"}>> >> ELSE <<>>)
-  \o (IF MapApplies(m) THEN
-       <<
-         <<"map.publish", {"map.streamKey", "map.metaKey", "map.resultCacheKey", "map.stateHashKey", "map.stateOrderKey",
-                           "map.stateExpireKey", "map.stateMetaKey", "map.cleanupRegistrationKey", "map.nilKey",
-                           "map.messageChannelID"}>>,
-         <<"map.read.ordered", {"map.stateHashKey", "map.stateOrderKey", "map.stateExpireKey", "map.metaKey", "map.stateMetaKey"}>>,
-         <<"map.read.stream", {"map.streamKey", "map.metaKey"}>>,
-         <<"map.cleanup", {"map.stateHashKey", "map.stateExpireKey", "map.streamKey", "map.metaKey", "map.cleanupScanKey",
-                           "map.stateOrderKey", "map.stateMetaKey", "map.messageChannelID"}>>
-       >>
-      ELSE <<>>)
+---------------------------------------------------------------------------
+(* --- operations: which commands an operation sends, with which KEYS ------ *)
+\* An INVOCATION is  <<name, <<command, ...>>>>,  a command is  <<COMMAND, <<KEYS by position>>, channel>>:
+\* KEYS are builder names ("" = an empty key, which IS a key: it hashes to slot 0), channel is the builder
+\* name of the PUB/SUB channel the command publishes to ("" = none; for EVALSHA it travels in ARGV and
+\* the script calls PUBLISH / SPUBLISH on it).  The name is  <engine>.<Operation>[:flag,flag,...] ; the
+\* harness runs the real operation selected by the name against a recording rueidis client and
+\* compares command by command, position by position.  Read from the call sites:
+\*   broker_redis.go  publish (:793-975), publishJoin/Leave, historyStream/historyList, removeHistory
+\*   presence_redis.go  add/remove/presence/presenceStats ScriptKeysArgs
+\*   map_broker_redis.go  Publish (:529-750), Remove (:752-905), ReadState (readSingleKeyWithOpts,
+\*                        readOrderedState, readUnorderedState), ReadStream, Stats, Clear, findExpiredKeys,
+\*                        batchRemoveExpired
+Cmd(c, keys, chan) == <<c, keys, chan>>
+Fl(b, s) == IF b THEN <<s>> ELSE <<>>
+RECURSIVE Join(_)
+Join(fs) == IF Len(fs) = 1 THEN fs[1] ELSE fs[1] \o "," \o Join(Tail(fs))
+Name(op, fs) == IF fs = <<>> THEN op ELSE op \o ":" \o Join(fs)
 
-KeyOf(bs, name) == bs[CHOOSE i \in 1..Len(bs) : bs[i][1] = name][2]
+SetToSeq(S) == LET RECURSIVE F(_)
+                   F(X) == IF X = {} THEN <<>> ELSE LET x == CHOOSE y \in X : TRUE IN <<x>> \o F(X \ {x})
+               IN F(S)
 
-\* the operations whose keys do not all carry the same hash tag
+BMC == "broker.messageChannelID"
+MMC == "map.messageChannelID"
+
+BrokerInvs(m, lists) ==
+  LET hk == IF lists THEN "broker.historyListKey" ELSE "broker.historyStreamKey"
+      \* the result key is computed (and passed as KEYS[3]) even without an idempotency key
+      Pub(h, d, i, v) ==
+        <<Name("broker.Publish", Fl(h, "history") \o Fl(d, "delta") \o Fl(i, "idem") \o Fl(v, "version")),
+          IF h THEN <<Cmd("EVALSHA", <<hk, "broker.historyMetaKey",
+                                       IF i THEN "broker.resultCacheKey" ELSE "broker.resultCacheKeyNoIdem">>, BMC)>>
+          ELSE IF i THEN <<Cmd("EVALSHA", <<"broker.resultCacheKey">>, BMC)>>
+          ELSE <<Cmd("PUBLISH", <<>>, BMC)>> >>
+  IN SetToSeq({Pub(h, d, i, v) : h \in BOOLEAN, d \in BOOLEAN, i \in BOOLEAN, v \in BOOLEAN})
+     \o << <<"broker.PublishJoin", <<Cmd("PUBLISH", <<>>, BMC)>> >>,
+           <<"broker.PublishLeave", <<Cmd("PUBLISH", <<>>, BMC)>> >>,
+           <<"broker.History", <<Cmd("EVALSHA", <<hk, "broker.historyMetaKey">>, "")>> >>,
+           <<"broker.RemoveHistory", <<Cmd("DEL", <<hk>>, "")>> >> >>
+     \* one SSUBSCRIBE connection per partition carries the shard channel and the message channels
+     \o (IF Sharded(m) THEN << <<"broker.subscribe.sharded", <<Cmd("SSUBSCRIBE", <<"broker.pubSubShardChannelID">>, BMC)>> >> >>
+         ELSE <<>>)
+
+PresenceInvs ==
+  LET four == <<"presence.setKey", "presence.hashKey", "presence.userSetKey", "presence.userHashKey">> IN
+  << <<"presence.Add", <<Cmd("EVALSHA", four, "")>> >>,
+     <<"presence.Remove", <<Cmd("EVALSHA", four, "")>> >>,
+     <<"presence.Stats", <<Cmd("EVALSHA", four, "")>> >>,
+     <<"presence.Get", <<Cmd("EVALSHA", <<"presence.setKey", "presence.hashKey">>, "")>> >> >>
+
+MapModes == {"ephemeral", "recoverable", "persistent"}
+HasStream(mm) == mm # "ephemeral"
+HasExpiry(mm) == mm # "persistent"       \* KeyTTL > 0 exactly in these modes (ResolveAndValidateMapChannelOptions)
+\* an unused KEYS position of the add/remove script: the slot-aligned ":nil:" key in cluster mode
+\* ("Empty string keys hash to slot 0, which differs from the hash-tagged real keys"), empty otherwise
+U(m) == IF IsCluster(m) THEN "map.nilKey" ELSE ""
+If(c, n, m) == IF c THEN n ELSE U(m)
+
+MapInvs(m) ==
+  LET Publish(mm, keyed, ordered, idem) ==
+        <<Name("map.Publish", <<mm>> \o Fl(keyed, "keyed") \o Fl(ordered, "ordered") \o Fl(idem, "idem")),
+          IF mm = "ephemeral" /\ ~idem /\ ~keyed THEN <<Cmd("PUBLISH", <<>>, MMC)>>      \* fast path
+          ELSE <<Cmd("EVALSHA",
+                     << If(HasStream(mm), "map.streamKey", m), If(HasStream(mm), "map.metaKey", m),
+                        If(idem, "map.resultCacheKey", m), If(keyed, "map.stateHashKey", m),
+                        If(keyed /\ ordered, "map.stateOrderKey", m), If(keyed, "map.stateExpireKey", m),
+                        If(keyed /\ HasStream(mm), "map.stateMetaKey", m),
+                        If(keyed /\ HasExpiry(mm), "map.cleanupRegistrationKey", m) >>, MMC)>> >>
+      Remove(mm, idem) ==
+        <<Name("map.Remove", <<mm>> \o Fl(idem, "idem")),
+          <<Cmd("EVALSHA",
+                << If(HasStream(mm), "map.streamKey", m), If(HasStream(mm), "map.metaKey", m),
+                   If(idem, "map.resultCacheKey", m), "map.stateHashKey", U(m), "map.stateExpireKey",
+                   If(HasStream(mm), "map.stateMetaKey", m), U(m) >>, MMC)>> >>
+      ReadPaged(mm, ordered) ==
+        <<Name("map.ReadState", <<mm>> \o Fl(ordered, "ordered")),
+          IF ordered
+            THEN <<Cmd("EVALSHA", <<"map.stateHashKey", "map.stateOrderKey", "map.stateExpireKey", "map.metaKey", "map.stateMetaKey">>, "")>>
+            ELSE <<Cmd("EVALSHA", <<"map.stateHashKey", "map.stateExpireKey", "map.metaKey", "map.stateMetaKey">>, "")>> >>
+      ReadKey(mm) ==
+        <<Name("map.ReadState", <<mm, "key">>),
+          IF mm = "ephemeral" THEN <<Cmd("HGET", <<"map.stateHashKey">>, "")>>
+          ELSE <<Cmd("HGET", <<"map.stateHashKey">>, ""), Cmd("HMGET", <<"map.metaKey">>, "")>> >>
+      PerMode(mm) ==
+        << <<Name("map.ReadStream", <<mm>>), <<Cmd("EVALSHA", <<"map.streamKey", "map.metaKey">>, "")>> >>,
+           <<Name("map.Stats", <<mm>>), <<Cmd("EVALSHA", <<"map.stateHashKey">>, "")>> >>,
+           <<Name("map.Clear", <<mm>>),
+             <<Cmd("DEL", <<"map.streamKey", "map.metaKey", "map.stateHashKey", "map.stateOrderKey", "map.stateExpireKey",
+                            "map.stateMetaKey">>, ""),
+               Cmd("ZREM", <<"map.cleanupRegistrationKey">>, "")>> >>,
+           <<Name("map.cleanupFind", <<mm>>), <<Cmd("EVALSHA", <<"map.stateHashKey", "map.stateExpireKey">>, "")>> >>,
+           <<Name("map.cleanupBatchRemove", <<mm>>),
+             <<Cmd("EVALSHA", <<"map.stateHashKey", "map.stateExpireKey", "map.streamKey", "map.metaKey", "map.cleanupScanKey",
+                                "map.stateOrderKey", "map.stateMetaKey">>, MMC)>> >> >>
+  IN SetToSeq({Publish(mm, k, o, i) : mm \in MapModes, k \in BOOLEAN, o \in BOOLEAN, i \in BOOLEAN})
+     \o SetToSeq({Remove(mm, i) : mm \in MapModes, i \in BOOLEAN})
+     \o SetToSeq({ReadPaged(mm, o) : mm \in MapModes, o \in BOOLEAN})
+     \o SetToSeq({ReadKey(mm) : mm \in MapModes})
+     \o PerMode("ephemeral") \o PerMode("recoverable") \o PerMode("persistent")
+
+Invs(m, lists) == BrokerInvs(m, lists) \o PresenceInvs \o (IF MapApplies(m) THEN MapInvs(m) ELSE <<>>)
+
+\* constant level (evaluated once): the invocations and their distinct commands per (mode, lists)
+AllModes == {"plain", "cluster", "sharded", "precomp"}
+InvsOf == [m \in AllModes, l \in BOOLEAN |-> Invs(m, l)]
+CmdsOf == [m \in AllModes, l \in BOOLEAN |->
+             UNION {{InvsOf[m, l][j][2][x] : x \in 1..Len(InvsOf[m, l][j][2])} : j \in 1..Len(InvsOf[m, l])}]
+
+\* indices (into InvsOf) of the invocations with a command whose keys / channel do not all carry the same hash tag
 BadOps(m, p, ch, lists) ==
-  LET bs  == Builders(m, p, ch, lists)
-      ops == Ops(m, lists)
-  IN {ops[i][1] : i \in {j \in 1..Len(ops) : Cardinality({Str(Tag(KeyOf(bs, nm))) : nm \in ops[j][2]}) > 1}}
+  LET bs    == Builders(m, p, ch, lists)
+      tagOf == [n \in {bs[i][1] : i \in 1..Len(bs)} |-> Str(Tag(bs[CHOOSE i \in 1..Len(bs) : bs[i][1] = n][2]))]
+      TagN(n) == IF n = "" THEN "" ELSE tagOf[n]
+      invs  == InvsOf[m, lists]
+      bad   == {c \in CmdsOf[m, lists] :
+                  Cardinality({TagN(c[2][i]) : i \in 1..Len(c[2])} \cup (IF c[3] = "" THEN {} ELSE {TagN(c[3])})) > 1}
+  IN {j \in 1..Len(invs) : \E x \in 1..Len(invs[j][2]) : invs[j][2][x] \in bad}
 
 \* channel round trips (by engine)
 BadTrips(m, p, ch) ==
@@ -243,14 +331,12 @@ Class(m, p, ch) ==
 
 ---------------------------------------------------------------------------
 (* --- the table ---------------------------------------------------------- *)
-\* rows:  <<"ops", mode, lists, <<op, <<builder names>>>>* >>           one per (mode, lists)
-\*        <<mode, prefix, lists, channel, class, <<bad ops>>, <<bad round trips>>, <<name, key shape>>* >>
+\* rows:  <<"ops", mode, lists, <<name, <<COMMAND, <<KEYS>>, channel>>* >>* >>       one per (mode, lists)
+\*        <<mode, prefix, lists, channel, class, <<indices of bad invocations>>, <<bad round trips>>, <<name, key shape>>* >>
 VARIABLE row
 vars == <<row>>
 
-SetToSeqStr(S) == LET RECURSIVE F(_)
-                      F(X) == IF X = {} THEN <<>> ELSE LET x == CHOOSE y \in X : TRUE IN <<x>> \o F(X \ {x})
-                  IN F(S)
+SetToSeqStr(S) == SetToSeq(S)
 
 MkRow(m, p, ch, lists) ==
   LET bs == Builders(m, p, ch, lists)
@@ -258,8 +344,7 @@ MkRow(m, p, ch, lists) ==
        SetToSeqStr(IF IsCluster(m) THEN BadOps(m, p, ch, lists) ELSE {}), SetToSeqStr(BadTrips(m, p, ch)),
        [i \in 1..Len(bs) |-> <<bs[i][1], Str(bs[i][2])>>]>>
 
-OpsRow(m, lists) == LET ops == Ops(m, lists) IN
-  <<"ops", m, lists, [i \in 1..Len(ops) |-> <<ops[i][1], SetToSeqStr(ops[i][2])>>]>>
+OpsRow(m, lists) == <<"ops", m, lists, InvsOf[m, lists]>>
 
 Seeds == {<<"seed", m, p, l>> : m \in Modes, p \in Prefixes, l \in BOOLEAN}
 Init == row \in Seeds
